@@ -1674,6 +1674,104 @@ def model(ex, st, c, args):
             return none()
         sh = z3.ZeroExt(32, y.t)
         return some(Int((x.t << sh) if m.group(1) == 'shl' else (x.t >> sh), True))
+    mm = re.fullmatch(r'core::num::<impl (i64|u64|usize|i32|u32|u8|i128)>::(\w+)', c)
+    if mm and isinstance(args[0], Int):
+        ty, f = mm.group(1), mm.group(2)
+        x = args[0]
+        s = ty[0] == 'i'
+        n = x.t.size()
+        y = args[1] if len(args) > 1 and isinstance(args[1], Int) else None
+        ext = (lambda t: z3.SignExt(n, t)) if s else (lambda t: z3.ZeroExt(n, t))
+        lo, hi = (-(1 << (n - 1)), (1 << (n - 1)) - 1) if s else (0, (1 << n) - 1)
+        arith = {'add': lambda a, b: a + b, 'sub': lambda a, b: a - b, 'mul': lambda a, b: a * b}
+        for pre in ('wrapping_', 'saturating_', 'overflowing_', 'checked_'):
+            op = f[len(pre):] if f.startswith(pre) else None
+            if op in arith and y is not None and y.t.size() == n and not (ty == 'i64' and pre == 'checked_'):
+                if op == 'mul' and n >= 64:
+                    fits = z3.And(z3.BVMulNoOverflow(x.t, y.t, s), z3.BVMulNoUnderflow(x.t, y.t)) if s else z3.BVMulNoOverflow(x.t, y.t, False)
+                    res_ = x.t * y.t
+                    too_big = (x.t < 0) == (y.t < 0) if s else z3.BoolVal(True)
+                else:
+                    wide = arith[op](ext(x.t), ext(y.t))
+                    res_ = z3.Extract(n - 1, 0, wide)
+                    fits = ext(res_) == wide
+                    too_big = (wide > hi) if s else (z3.UGT(wide, hi) if op != 'sub' else z3.BoolVal(False))
+                if pre == 'wrapping_':
+                    return Int(res_, s)
+                if pre == 'overflowing_':
+                    return Adt('tuple', 0, [Int(res_, s), z3.Not(fits)])
+                if pre == 'saturating_':
+                    return Int(z3.If(fits, res_, z3.If(too_big, bv(hi, n), bv(lo, n))), s)
+                t = B([(fits, 's'), (z3.Not(fits), 'n')])
+                return some(Int(res_, s)) if t == 's' else none()
+        if f == 'wrapping_neg':
+            return Int(-x.t, s)
+        if f == 'unsigned_abs':
+            return Int(z3.If(x.t < 0, -x.t, x.t), False)
+        if f == 'signum':
+            return Int(z3.If(x.t > 0, bv(1, n), z3.If(x.t == 0, bv(0, n), bv(-1, n))), True)
+        if f in ('is_negative', 'is_positive'):
+            return (x.t < 0) if f == 'is_negative' else (x.t > 0)
+        if f in ('min', 'max') and y is not None:
+            lt = (x.t < y.t) if s else z3.ULT(x.t, y.t)
+            return Int(z3.If(lt, x.t, y.t) if f == 'min' else z3.If(lt, y.t, x.t), s)
+        if f in ('rem_euclid', 'div_euclid', 'wrapping_rem', 'wrapping_div') and y is not None and s:
+            bad = z3.Or(y.t == 0, z3.And(x.t == bv(lo, n), y.t == bv(-1, n))) if f.endswith('euclid') else (y.t == 0)
+            t = B([(z3.Not(bad), 'ok'), (bad, 'p')])
+            if t == 'p':
+                raise Panic('attempt to divide / take the remainder with overflow or by zero')
+            q, r_ = x.t / y.t, z3.SRem(x.t, y.t)
+            if f == 'rem_euclid':
+                return Int(z3.If(r_ < 0, z3.If(y.t < 0, r_ - y.t, r_ + y.t), r_), True)
+            if f == 'div_euclid':
+                return Int(z3.If(r_ < 0, z3.If(y.t > 0, q - 1, q + 1), q), True)
+            return Int(q if f == 'wrapping_div' else r_, True)
+        if f in ('count_ones', 'leading_zeros', 'trailing_zeros'):
+            bits_ = [z3.ZeroExt(31, z3.Extract(i, i, x.t)) for i in range(n)]
+            if f == 'count_ones':
+                tot = bits_[0]
+                for b_ in bits_[1:]:
+                    tot = tot + b_
+                return Int(tot, False)
+            order = list(range(n - 1, -1, -1)) if f == 'leading_zeros' else list(range(n))
+            r_ = bv(n, 32)
+            for k_, i in reversed(list(enumerate(order))):
+                r_ = z3.If(z3.Extract(i, i, x.t) == 1, bv(k_, 32), r_)
+            return Int(r_, False)
+        if f == 'pow' and y is not None:
+            e_ = z3.simplify(y.t)
+            if z3.is_bv_value(e_) and e_.as_long() <= 8:
+                acc = bv(1, n)
+                okc = z3.BoolVal(True)
+                for _ in range(e_.as_long()):
+                    if ex.overflow_checks:
+                        okc = z3.And(okc, z3.BVMulNoOverflow(acc, x.t, s), z3.BVMulNoUnderflow(acc, x.t) if s else z3.BoolVal(True))
+                    acc = acc * x.t
+                if ex.overflow_checks:
+                    t = B([(okc, 'ok'), (z3.Not(okc), 'p')])
+                    if t == 'p':
+                        raise Panic('attempt to multiply with overflow (pow)')
+                return Int(acc, s)
+    if c in ('std::cmp::min', 'std::cmp::max', 'core::cmp::min', 'core::cmp::max') and isinstance(args[0], Int):
+        x, y = args
+        lt = (y.t < x.t) if x.signed else z3.ULT(y.t, x.t)
+        if c.endswith('min'):
+            return Int(z3.If(lt, y.t, x.t), x.signed)
+        gt = (x.t > y.t) if x.signed else z3.UGT(x.t, y.t)
+        return Int(z3.If(gt, x.t, y.t), x.signed)
+    mm = re.fullmatch(r'<(.*) as (?:Partial)?Ord>::(cmp|partial_cmp)', c)
+    if mm:
+        x, y = D(args[0]), D(args[1])
+        if isinstance(x, Int):
+            lt = (x.t < y.t) if x.signed else z3.ULT(x.t, y.t)
+            o_ = Adt('Ordering', z3.If(lt, bv(-1, 64), z3.If(x.t == y.t, bv(0, 64), bv(1, 64))), [])
+            return o_ if mm.group(2) == 'cmp' else some(o_)
+        if isinstance(x, Fl) and mm.group(2) == 'partial_cmp':
+            nan = z3.Or(z3.fpIsNaN(x.t), z3.fpIsNaN(y.t))
+            t = B([(nan, 'n'), (z3.Not(nan), 's')])
+            if t == 'n':
+                return none()
+            return some(Adt('Ordering', z3.If(z3.fpLT(x.t, y.t), bv(-1, 64), z3.If(z3.fpEQ(x.t, y.t), bv(0, 64), bv(1, 64))), []))
     m = re.fullmatch(r'<i64 as (BitAnd|BitOr|BitXor)(?:<i64>)?>::\w+', c)
     if m:
         x, y = args
@@ -1719,6 +1817,33 @@ def model(ex, st, c, args):
             return Fl(z3.fpRoundToIntegral(z3.RNA(), a))
         if f == 'trunc':
             return Fl(z3.fpRoundToIntegral(z3.RTZ(), a))
+        if f == 'fract':
+            return Fl(z3.fpSub(RNE, a, z3.fpRoundToIntegral(z3.RTZ(), a)))
+        if f == 'to_bits':
+            # one NaN in the theory: the bit pattern of a NaN is unconstrained
+            return Int(z3.fpToIEEEBV(a), False)
+        if f == 'is_sign_negative':
+            return z3.Or(z3.fpIsNegative(a), z3.And(z3.fpIsNaN(a), z3.Bool(ex.fresh_name('nan_sign'))))
+        if f == 'is_sign_positive':
+            return z3.Or(z3.fpIsPositive(a), z3.And(z3.fpIsNaN(a), z3.Bool(ex.fresh_name('nan_sign'))))
+        if f == 'signum':
+            return Fl(z3.If(z3.fpIsNaN(a), a, z3.If(z3.fpIsNegative(a), z3.FPVal(-1.0, F64), z3.FPVal(1.0, F64))))
+        if f == 'copysign':
+            b = args[1].t
+            return Fl(z3.If(z3.fpIsNegative(b), z3.fpNeg(z3.fpAbs(a)), z3.fpAbs(a)))
+        if f == 'is_subnormal':
+            return z3.fpIsSubnormal(a)
+        if f == 'recip':
+            return Fl(z3.fpDiv(RNE, z3.FPVal(1.0, F64), a))
+        if f in ('powi',):
+            return Fl(ex.uf('libm_powi', F64, z3.BitVecSort(32), F64)(a, args[1].t))
+        if f == 'mul_add':
+            return Fl(z3.fpFMA(RNE, a, args[1].t, args[2].t))
+        if f == 'clamp':
+            lo_, hi_ = args[1].t, args[2].t
+            return Fl(z3.If(z3.fpLT(a, lo_), lo_, z3.If(z3.fpGT(a, hi_), hi_, a)))
+        if f in ('total_cmp',):
+            raise Unsupported('f64::total_cmp')
         if f == 'is_nan':
             return z3.fpIsNaN(a)
         if f == 'is_infinite':
@@ -1733,6 +1858,8 @@ def model(ex, st, c, args):
             other = z3.fpLT(b, a) if f == 'min' else z3.fpGT(b, a)
             tie = z3.Bool(ex.fresh_name('fminmax_tie'))
             return Fl(z3.If(z3.fpIsNaN(a), b, z3.If(z3.fpIsNaN(b), a, z3.If(pick, a, z3.If(other, b, z3.If(tie, a, b))))))
+    if c in ('core::f64::<impl f64>::from_bits', 'f64::<impl f64>::from_bits'):
+        return Fl(z3.fpBVToFP(args[0].t, F64))
     m = re.fullmatch(r'<f64 as (?:std::ops::)?(Add|Sub|Mul|Div|Rem|Neg)(?:<f64>)?>::\w+', c)
     if m:
         if m.group(1) == 'Neg':
